@@ -199,6 +199,188 @@ def explore(ctx, h, drv, label, nhist, nops, stride, n2):
                         ctx.log("DIVERGE", opl, "| impl:", a, "| model:", b)
 
 
+# ------------------------------------------------------------------ (d) writer model vs the real writer
+
+WWRAPS = ("write", "fsync", "fdatasync", "ftruncate64")
+
+
+def build_writer(ctx):
+    impl = C.build_impl("asan")
+    return C.build_harness(impl, "h_walw", ["h_walw.c"], exclude=("iwal.c",), wraps=WWRAPS)
+
+
+def gen_writer_history(r, wd, tag, nops):
+    """op lines for h_walw: set-up, `rec` at a clean point, random ops with snapshots, close"""
+    path = os.path.join(wd, tag + ".db")
+    crc = r.choice([0, 1, 1])
+    buf = r.choice([4096, 4096, 8192, 16384])
+    ops = ["open %s %d %d" % (path, crc, buf), "db 1"]
+    dbs = [1]
+    if r.random() < 0.4:
+        ops.append("db 2"); dbs.append(2)
+    if r.random() < 0.6:      # pre-grown file: few resize-forced checkpoints inside the recorded part
+        ops += ["put 1 %s %d 9" % (b"grow".hex(), r.choice([20000, 40000, 80000])), "del 1 %s" % b"grow".hex()]
+    ops += ["ckpt", "rec %s %s" % (os.path.join(wd, tag + ".ev"), os.path.join(wd, tag + ".main0"))]
+    keys = [b"k%03d" % i for i in range(r.choice([6, 20, 50]))] + [bytes([65 + i]) * r.choice([40, 120, 200]) for i in range(2)]
+    psync = r.choice([0.05, 0.15, 0.3])
+    nsnap = 0
+    for _ in range(nops):
+        x = r.random()
+        if x < psync:
+            ops.append("sync")
+        elif x < psync + 0.04:
+            ops.append("ckpt")
+        elif x < psync + 0.07 and len(dbs) < 4:
+            d = max(dbs) + 1; dbs.append(d); ops.append("db %d" % d)
+        elif x < psync + 0.13 and nsnap < 4:
+            ops.append("snap %s %s %s" % tuple(os.path.join(wd, "%s.s%d.%s" % (tag, nsnap, k)) for k in ("main", "wal", "buf"))); nsnap += 1
+        else:
+            d, k = r.choice(dbs), r.choice(keys)
+            if r.random() < 0.25:
+                ops.append("del %d %s" % (d, k.hex()))
+            else:
+                # sizes around the buffer capacity: payload inside the buffer, exactly filling it, written outside the segment
+                ln = r.choice([r.randrange(1, 40), r.randrange(1, 300), r.randrange(300, 3000), r.randrange(buf - 400, buf + 100),
+                               r.randrange(4000, 9000), r.randrange(9000, 30000)])
+                ops.append("put %d %s %d %d" % (d, k.hex(), ln, r.randrange(1, 250)))
+    ops.append("snap %s %s %s" % tuple(os.path.join(wd, "%s.s%d.%s" % (tag, nsnap, k)) for k in ("main", "wal", "buf")))
+    ops += ["close", "stop"]
+    return ops, crc, buf, path
+
+
+def convert_events(evpath):
+    """event file of h_walw -> [(model op, system calls on the log that followed, flags line or None, checkpoint-end line or None)]"""
+    recs = [l.rstrip("\n") for l in open(evpath)]
+    out, i = [], 0
+    while i < len(recs):
+        l = recs[i]; w = l.split()
+        if not w or w[0] in ("#", "st"):
+            i += 1; continue
+        kind = w[0]
+        if kind == "snap":
+            out.append(("snap", w[1:4], None, None)); i += 1; continue
+        if kind not in ("set", "copy", "write", "resize", "synced", "time0"):
+            raise ValueError("unexpected event record: " + l[:80])
+        j, effs, t1 = i + 1, [], None
+        while j < len(recs):
+            k = recs[j].split()[0]
+            if k == "W": effs.append("W:%s:%s" % tuple(recs[j].split()[1:3]))
+            elif k == "F": effs.append("F")
+            elif k == "T": effs.append("T")
+            elif k == "time1" and t1 is None and kind in ("resize", "time0"): t1 = recs[j]
+            elif k == "#": pass
+            else: break
+            j += 1
+        st = recs[j] if j < len(recs) and recs[j].startswith("st ") else None
+        if kind == "time0":
+            op = ("ckpt %s" % w[1]) if t1 else ("sp %s %d" % (w[1], 1 if "F" in effs else 0))
+        else:
+            op = l
+        out.append((op, " ".join(effs) or "-", st, t1))
+        i = j
+    return out
+
+
+def writer_tie(ctx, drv, label, nhist, nops):
+    """The Lean writer (`Model/WalWriter.lean`) is fed the listener events recorded from a real run and must perform the same
+    system calls on the log file (lengths and FNV of every write), keep the same flags, leave the same log file and log buffer
+    byte for byte, the same main file after every checkpoint, and recover to the same image after a kill at every snapshot."""
+    if not drv:
+        return
+    h = build_writer(ctx)
+    r = C.Rng(ctx.seed, "c04/writer/" + label)
+    wd = os.path.join(C.scratch(), "c04w-" + label)
+    os.makedirs(wd, exist_ok=True)
+    for hi in range(nhist):
+        tag = "w%d" % hi
+        ops, crc, buf, path = gen_writer_history(r, wd, tag, r.randrange(max(4, nops // 2), nops))
+        rc, out, err = C.run_lines([h], ops, timeout=300)
+        if rc != 0 or len(out) != len(ops) or not any(o.startswith("rec ok") for o in out):
+            kind, fn = san_site(err)
+            ctx.fail(dict(kind="crash", phase="writer-history", site=fn, what=kind), dict(lines=ops, stderr=err[-3000:], out=out[-5:]),
+                     "recorded writer history failed: rc=%s %s %s" % (rc, out[-1:], err[-300:]))
+            continue
+        recl = [o for o in out if o.startswith("rec ok")][0]
+        try:
+            conv = convert_events(os.path.join(wd, tag + ".ev"))
+        except ValueError as e:
+            ctx.corr_broken.append("writer tie: %s" % e)
+            continue
+        lines, what = ["init %d %s %s" % (crc, W.field(recl, "bufsz"), os.path.join(wd, tag + ".main0"))], [None]
+        snaps = []
+        for c in conv:
+            if c[0] == "snap":
+                k = len(snaps)
+                snaps.append(c[1])
+                for part in ("log", "buf"):
+                    lines.append("dump %s %s" % (part, os.path.join(wd, "%s.m%d.%s" % (tag, k, part)))); what.append(("dump", k, part))
+                lines.append("recover"); what.append(("recover", k))
+            else:
+                lines.append(c[0]); what.append(("op", c))
+                if c[3]:
+                    lines.append("state"); what.append(("main", c))
+        rc, mo, me = C.run_lines([drv, "walw"], lines, timeout=600)
+        if rc != 0 or len(mo) != len(lines):
+            ctx.corr_broken.append("writer model driver failed on history %s: rc=%s %s" % (tag, rc, me[-300:]))
+            continue
+        # the real recovery of every snapshot pair (kill at that instant)
+        rl = ["recov %s %s %s %d" % (os.path.join(wd, "rw.db"), sn[0], sn[1], crc) for sn in snaps]
+        rc, ro, re_ = C.run_lines([h], rl, timeout=300)
+        if rc != 0 or len(ro) != len(rl):
+            kind, fn = san_site(re_)
+            ctx.fail(dict(kind="crash", phase="writer-recover", site=fn, what=kind), dict(lines=ops, recov=rl, stderr=re_[-3000:]),
+                     "recovery of a snapshot taken during a recorded history died: %s" % re_[-300:])
+            continue
+        nbad = 0
+
+        def diverge(msg):
+            nonlocal nbad
+            nbad += 1
+            ctx.corr_broken.append("writer model/implementation diverge (%s, crc=%d bufsz=%d): %s" % (tag, crc, buf, msg))
+            if nbad <= 3:
+                ctx.log("DIVERGE writer", tag, msg[:600])
+        for wi, (wh, o) in enumerate(zip(what, mo)):
+            if wh is None:
+                continue
+            if wh[0] == "op":
+                op, effs, st, t1 = wh[1]
+                ctx.cov["traces_validated_against_impl"] += 1
+                ctx.case(("writer", label, hi, wi))
+                ctx.hist("writer-step-" + op.split()[0])
+                if "W:" in effs and effs.count("W:") >= 2 and op.startswith("write"):
+                    ctx.hist("writer-payload-outside-segment")
+                me_, ms = o.split(" | ") if " | " in o else (o, "")
+                bad = me_ != effs
+                if st and not st.startswith("st closed"):
+                    bad = bad or any(W.field(st, k) != W.field(ms, k) for k in ("bufpos", "synched", "mbytes", "wsz"))
+                if t1:
+                    bad = bad or W.field(t1, "msz") != W.field(ms, "msz")
+                if bad:
+                    diverge("step `%s`: impl `%s | %s | %s` model `%s`" % (op[:80], effs, st, t1, o))
+                if W.field(ms, "valid") != "1":
+                    diverge("listener event `%s` violates the hypothesis Valid of the writer theorems" % op[:80])
+                else:
+                    ctx.hist("writer-event-satisfies-Valid")
+            elif wh[0] == "main":
+                t1 = wh[1][3]
+                ctx.hist("writer-main-after-checkpoint-compared")
+                if "main=%s:%s " % (W.field(t1, "msz"), W.field(t1, "mh")) not in o + " ":
+                    diverge("main file after the checkpoint of `%s`: impl `%s` model `%s`" % (wh[1][0][:60], t1, o))
+            elif wh[0] == "dump":
+                k, part = wh[1], wh[2]
+                real = open(snaps[k][1] if part == "log" else snaps[k][2], "rb").read()
+                model = open(os.path.join(wd, "%s.m%d.%s" % (tag, k, part)), "rb").read()
+                ctx.hist("writer-%s-bytes-compared" % part, len(real))
+                if real != model:
+                    first = next((i for i in range(min(len(real), len(model))) if real[i] != model[i]), min(len(real), len(model)))
+                    diverge("%s at snapshot %d differs: %d vs %d bytes, first difference at %d" % (part, k, len(real), len(model), first))
+            elif wh[0] == "recover":
+                ctx.hist("writer-kill-recover-compared")
+                if ro[wh[1]] != o:
+                    diverge("recovery after a kill at snapshot %d: impl `%s` model `%s`" % (wh[1], ro[wh[1]], o))
+        ctx.sample(dict(writer_history_head=ops[:7], steps=len(conv), snapshots=len(snaps), crc=crc, bufsz=buf))
+
+
 def run(ctx):
     ctx.cov["rule"] = ("each history (random put/del/sync/new-db/checkpoint, value sizes 1..40000, 1-4 databases, with and without file growth "
                        "inside operations) is re-run once per crash point k and killed by _exit immediately before its k-th file-system effect "
@@ -212,9 +394,11 @@ def run(ctx):
     drv = C.drv_path() if drv_ok else None
     if ctx.tier == "quick":
         explore(ctx, h, drv, "main", 9, 14, 1, 12)
+        writer_tie(ctx, drv, "main", 5, 50)
     else:
         explore(ctx, h, drv, "main", 24, 30, 1, 60)
         explore(ctx, h, drv, "long", 6, 100, 9, 30)
+        writer_tie(ctx, drv, "main", 24, 120)
     if ctx.proof_broken or ctx.corr_broken:
         ctx.log("obligation or correspondence broken: widening the search for a failing input")
         explore(ctx, h, None, "search", 12, 30, 1, 20)
